@@ -21,7 +21,7 @@ def _cls(prog, short, name):
 
 def analyse(prog):
     """run every entry point once; returns {entry: Interp}"""
-    if id(prog) in _CACHE: return _CACHE[id(prog)]
+    if hasattr(prog, '_spaces'): return prog._spaces
     out = {}
     lab = lambda: V('label', space=('S', 'any', 'any'))
     # ---- MNA assembly
@@ -74,7 +74,7 @@ def analyse(prog):
     # ---- port impedance
     it = Interp(prog); out['port'] = it
     it.result = it.call_function(m, m.defs['open_circuit_impedance'], [V('network', ident=0), lab(), lab()], {})
-    _CACHE[id(prog)] = out
+    prog._spaces = out
     return out
 
 
